@@ -361,6 +361,12 @@ def replay_data(fc, hist, seed, enc, kinds):
             "legend": "kinds: per data transmission of the PTX 0=delivered 1=packet lost 2=ACK lost; hist: S=send(p) L=send([p,q]) R=resend()"}
 
 
+def switch_bound(strat, hist, fc):
+    """number of loss-kind switches explored in a switch-bounded tree: K when the history allows
+    at most Ktot transmissions, K2 beyond"""
+    return strat["K"] if total_attempts(fc, hist) <= strat.get("Ktot", 10 ** 9) else strat.get("K2", strat["K"])
+
+
 def explore_hist(pack, fc, hist, seed, pid, strat, rep):
     tot = total_attempts(fc, hist)
     if not fc["listen"]:
@@ -368,7 +374,7 @@ def explore_hist(pack, fc, hist, seed, pid, strat, rep):
     elif tot <= strat["T"]:
         part, enc, bound = "complete", "direct", tot + 4
     else:
-        part, enc, bound = "switch", "switch", strat["K"]
+        part, enc, bound = "switch", "switch", switch_bound(strat, hist, fc)
     n = 0
     cid = fc_id(fc)
 
